@@ -103,7 +103,7 @@ func structure(r *fw.R, op string, sps, out []oracle.Subpath, outData []float64)
 	for i := range sps {
 		in, o := sps[i], out[i]
 		tol := 1e-12 * math.Max(oracle.MaxAbsCoord(sps), 1e-300)
-		if d := o.Start.Dist(in.Start); d > tol {
+		if d := o.Start.Dist(in.Start); !(d <= tol) {
 			viol(r, sps, op+"-start-point:"+shape(sps), fmt.Sprintf("subpath %d starts at %v, input at %v", i, o.Start, in.Start))
 			ok = false
 		}
@@ -111,7 +111,7 @@ func structure(r *fw.R, op string, sps, out []oracle.Subpath, outData []float64)
 			if len(o.Segs) == 0 {
 				viol(r, sps, op+"-end-point:"+shape(sps), fmt.Sprintf("subpath %d has no segments: %s", i, oracle.Fmt(outData)))
 				ok = false
-			} else if e, f := o.Segs[len(o.Segs)-1].P1, in.Segs[len(in.Segs)-1].P1; e.Dist(f) > tol {
+			} else if e, f := o.Segs[len(o.Segs)-1].P1, in.Segs[len(in.Segs)-1].P1; !(e.Dist(f) <= tol) {
 				viol(r, sps, op+"-end-point:"+shape(sps), fmt.Sprintf("subpath %d ends at (%.17g,%.17g), input at (%.17g,%.17g)", i, e.X, e.Y, f.X, f.Y))
 				ok = false
 			} else if e != f {
@@ -223,14 +223,14 @@ func checkFlatten(r *fw.R, sps []oracle.Subpath, t float64) {
 		worst, wi := oracle.MaxDistToPolyline(curve, poly, 0.25*t)
 		ratio := worst / t
 		worstRatio = math.Max(worstRatio, ratio)
-		if worst > cLimit(sh, t/scaleOf(sps))*t+dev+1e-12*scale {
+		if !(worst <= cLimit(sh, t/scaleOf(sps))*t+dev+1e-12*scale) {
 			viol(r, sps, "flatten-curve-far-from-polyline:"+sh, fmt.Sprintf("t=%g: curve point (%.9g,%.9g) of subpath %d is %.6g (= %.4g t) away from the flattened path %s", t, curve[wi].X, curve[wi].Y, i, worst, ratio, oracle.Fmt(outData)))
 		}
 	}
 	r.Max("flatten_err/t:"+kd, worstRatio)
 	if !curvefam.ArcChordEqualsRx(sps) {
 		r.Max(fmt.Sprintf("flatten_err/t:%s@t=%g*scale", sh, t/scaleOf(sps)), worstRatio)
-		if worstRatio > cLimit(sh, t/scaleOf(sps)) {
+		if !(worstRatio <= cLimit(sh, t/scaleOf(sps))) {
 			r.Count(fmt.Sprintf("flatten_err>Ct:%s@t=%g*scale", sh, t/scaleOf(sps)), 1)
 		}
 		r.Count(fmt.Sprintf("flatten_cases:%s@t=%g*scale", sh, t/scaleOf(sps)), 1)
@@ -312,9 +312,9 @@ func checkReplaceArcs(r *fw.R, sps []oracle.Subpath) {
 	// dense sagitta of a circle of radius rmax sampled with n chords over at most 2 pi
 	slack := rmax * (1 - math.Cos(math.Pi/n))
 	r.Max("replacearcs_hausdorff/rx", h/rmax)
-	if h > ReplaceArcsRel*rmax+slack {
+	if !(h <= ReplaceArcsRel*rmax+slack) {
 		viol(r, sps, "replacearcs-too-far", fmt.Sprintf("Hausdorff distance %.4g = %.4g rx (allowed %g rx); output %s", h, h/rmax, ReplaceArcsRel, oracle.Fmt(outData)))
-	} else if h > 1e-3*rmax+slack {
+	} else if !(h <= 1e-3*rmax+slack) {
 		r.Outcome("replacearcs:1e-3rx<err<=3e-3rx")
 	} else {
 		r.Outcome("replacearcs:err<=1e-3rx")
@@ -341,7 +341,7 @@ func monotoneX(pts []oracle.Pt, slack float64) bool {
 		if p.X < hi-slack {
 			up = false
 		}
-		if p.X > lo+slack {
+		if !(p.X <= lo+slack) {
 			down = false
 		}
 		hi, lo = math.Max(hi, p.X), math.Min(lo, p.X)
@@ -484,7 +484,7 @@ func checkXMonotone(r *fw.R, sps []oracle.Subpath) {
 	}
 	r.Outcome("xmonotone:compared-" + mode)
 	r.Max("xmonotone_hausdorff/scale", worst/scale)
-	if worst > tol {
+	if !(worst <= tol) {
 		viol(r, sps, "xmonotone-moves-curve:"+sh, fmt.Sprintf("distance %.4g between input and output point sets; output %s", worst, oracle.Fmt(outData)))
 	}
 	in := 0
